@@ -131,11 +131,11 @@ func (df *DataFile) WriteStagedLogRecord(logRecord *LogRecord, header []byte) {
 
 func (df *DataFile) FlushStaged() ([]*DataPos, error) {
 	dataPos, err := df.writeAll(df.bufferedWrites)
+	// 清空暂存数据: 无论写入是否成功, 其缓冲区均已归还缓冲池, 保留它们会在下次刷新时被再次写入并重复归还
+	df.bufferedWrites = df.bufferedWrites[:0]
 	if err != nil {
 		return nil, err
 	}
-	// 清空暂存数据
-	df.bufferedWrites = df.bufferedWrites[:0]
 	return dataPos, nil
 }
 
